@@ -153,9 +153,15 @@ fn test_span(c: &ZSpan, cx: &mut Cx) -> CaseResult {
     // operators (documented to panic on overflow: only when in range)
     if let Res::Instant(_) = want {
         cmp_res("&zdt+span", &ctx, Ok(&zdt + span), &want, &z, cx)?;
+        let mut g = zdt.clone();
+        g += span;
+        cmp_res("zdt+=span", &ctx, Ok(g), &want, &z, cx)?;
     }
     if let Res::Instant(_) = wsub {
         cmp_res("&zdt-span", &ctx, Ok(&zdt - span), &wsub, &z, cx)?;
+        let mut g = zdt.clone();
+        g -= span;
+        cmp_res("zdt-=span", &ctx, Ok(g), &wsub, &z, cx)?;
     }
     Ok(())
 }
@@ -206,6 +212,63 @@ fn test_duration(c: &ZDur, cx: &mut Cx) -> CaseResult {
         let u = std::time::Duration::new(c.secs as u64, c.nanos as u32);
         cmp_res("checked_add(std)", &ctx, zdt.checked_add(u), &want, &z, cx)?;
         cmp_res("checked_sub(std)", &ctx, zdt.checked_sub(u), &wsub, &z, cx)?;
+    }
+    // operator forms (documented to panic on overflow: only when in range)
+    if let Res::Instant(_) = want {
+        cmp_res("&zdt+duration", &ctx, Ok(&zdt + d), &want, &z, cx)?;
+        let mut g = zdt.clone();
+        g += d;
+        cmp_res("zdt+=duration", &ctx, Ok(g), &want, &z, cx)?;
+    }
+    if let Res::Instant(_) = wsub {
+        cmp_res("&zdt-duration", &ctx, Ok(&zdt - d), &wsub, &z, cx)?;
+        let mut g = zdt.clone();
+        g -= d;
+        cmp_res("zdt-=duration", &ctx, Ok(g), &wsub, &z, cx)?;
+    }
+    // the same on the bare Timestamp (exact elapsed time, no zone involved)
+    {
+        let ts = zdt.timestamp();
+        let ck = |what: &str, got: Result<jiff::Timestamp, jiff::Error>, want: &Res| -> CaseResult {
+            match (got, want) {
+                (Ok(t), Res::Instant(w)) => {
+                    if let Err(e) = gen::ts_sane(t) {
+                        fail!(format!("timestamp.{what}-incoherent"), "{ctx}: {e}");
+                    }
+                    ensure!(t.as_nanosecond() == *w, format!("timestamp.{what}-wrong"), "{ctx}: timestamp {what} = {} want {w}", t.as_nanosecond());
+                    Ok(())
+                }
+                (Err(_), Res::Err) => Ok(()),
+                (Ok(t), Res::Err) => fail!(format!("timestamp.{what}-accepts-out-of-range"), "{ctx}: timestamp {what} = Ok({t})"),
+                (Err(e), Res::Instant(w)) => fail!(format!("timestamp.{what}-rejects"), "{ctx}: timestamp {what} = Err({e}) want {w}"),
+                _ => Ok(()),
+            }
+        };
+        ck("checked_add(duration)", ts.checked_add(d), &want)?;
+        ck("checked_sub(duration)", ts.checked_sub(d), &wsub)?;
+        let wsat_add = if let Res::Err = want { lim(dn < 0) } else { want.clone() };
+        let wsat_sub = if let Res::Err = wsub { lim(dn > 0) } else { wsub.clone() };
+        ck("saturating_add(duration)", ts.saturating_add(d), &wsat_add)?;
+        ck("saturating_sub(duration)", ts.saturating_sub(d), &wsat_sub)?;
+        if let Res::Instant(_) = want {
+            let mut g = ts;
+            g += d;
+            ck("+duration", Ok(ts + d), &want)?;
+            ck("+=duration", Ok(g), &want)?;
+        }
+        if let Res::Instant(_) = wsub {
+            let mut g = ts;
+            g -= d;
+            ck("-duration", Ok(ts - d), &wsub)?;
+            ck("-=duration", Ok(g), &wsub)?;
+        }
+        if dn >= 0 {
+            let u = std::time::Duration::new(c.secs as u64, c.nanos as u32);
+            ck("checked_add(std)", ts.checked_add(u), &want)?;
+            ck("checked_sub(std)", ts.checked_sub(u), &wsub)?;
+            ck("saturating_add(std)", ts.saturating_add(u), &wsat_add)?;
+            ck("saturating_sub(std)", ts.saturating_sub(u), &wsat_sub)?;
+        }
     }
     // a span with only time units moves the instant by exactly that much
     if dn.abs() < 600_000_000_000i128 * NS_PER_SEC {
